@@ -1,5 +1,6 @@
 // Helpers for driving json_tokener on exact-size heap copies (any over-read is an ASan report).
 #pragma once
+#include <cerrno>
 #include <fcntl.h>
 #include <sys/mman.h>
 #include <unistd.h>
@@ -123,6 +124,17 @@ inline bool parse_via_fd(const std::string &bytes, int how, size_t piece, json_o
 	int p[2];
 	if (pipe(p) != 0)
 		return false;
+	// Blocking reads and writes on a pipe can be interrupted by a signal (libFuzzer drives its timeout with SIGALRM);
+	// json-c reports EINTR as a read error, which is its right - but it is not what this check is about. The timer
+	// signal is held back in both threads for the duration of the transfer.
+	sigset_t blk, old;
+	sigemptyset(&blk);
+	sigaddset(&blk, SIGALRM);
+	pthread_sigmask(SIG_BLOCK, &blk, &old);
+	struct Unblock {
+		sigset_t *o;
+		~Unblock() { pthread_sigmask(SIG_SETMASK, o, nullptr); }
+	} unblock{&old};
 	if (piece < 1)
 		piece = 1;
 	if (bytes.size() / piece > 24)
@@ -135,6 +147,8 @@ inline bool parse_via_fd(const std::string &bytes, int how, size_t piece, json_o
 			while (done < n)
 			{
 				ssize_t w = write(p[1], bytes.data() + at + done, n - done);
+				if (w < 0 && errno == EINTR)
+					continue;
 				if (w <= 0)
 				{
 					ok = false;
